@@ -64,9 +64,12 @@ class T2World(World):
     kind = "tt2"
 
     def __init__(self, sx, S, prefix="", rsv=(), oldlen=0, extra=16,
-                 old_lt_80=False, symbolic_window=None, terminator=None, nxp=None):
+                 old_lt_80=False, symbolic_window=None, terminator=None, nxp=None,
+                 rsv_on_len=False, plen=()):
         self.sx = sx
         self.nxp = nxp
+        pi = 0
+        self.hdr_rsv = False
         if nxp is not None:
             # NXP product: sizes from the data sheet, the vendor class is what
             # nfc.tag.activate() returns (GET_VERSION answer, UID starts 04h)
@@ -89,6 +92,18 @@ class T2World(World):
             if c == 'N':
                 mem[p] = 0x00
                 p += 1
+                continue
+            if c == 'P':
+                # proprietary TLV (FDh) with plen value bytes; its T, L and V
+                # bytes take the next bytes that are not reserved so far
+                k = plen[pi]
+                pi += 1
+                pos = [b for b in range(p, 16 + S) if b not in R][:k + 2]
+                mem[pos[0]], mem[pos[1]] = 0xFD, k
+                if pos[-1] - pos[0] != k + 1:
+                    sx.reach("rsv_inside_proprietary_tlv")
+                    self.hdr_rsv = True
+                p = pos[-1] + 1
                 continue
             frm, size = rsv[ri]
             ri += 1
@@ -116,14 +131,17 @@ class T2World(World):
         self.cap = real_capacity(self.count)
         self.oldlen = oldlen
         assert oldlen <= self.cap, (oldlen, self.cap)
-        if oldlen < 255:
-            mem[p + 1] = oldlen
-            vstart = p + 2
-        else:
-            mem[p + 1:p + 4] = [0xFF, oldlen >> 8, oldlen & 0xFF]
-            vstart = p + 4
-        for b in range(p + 1, vstart):
-            assert b not in R, "reserved range on the length field"
+        lfield = [oldlen] if oldlen < 255 else [0xFF, oldlen >> 8, oldlen & 0xFF]
+        lpos = self.usable[1:1 + len(lfield)]
+        for b, v in zip(lpos, lfield):
+            mem[b] = v
+        vstart = lpos[-1] + 1
+        if not rsv_on_len:
+            for b in range(p + 1, vstart):
+                assert b not in R, "reserved range on the length field"
+        elif any(b in R for b in range(p + 1, vstart)):
+            sx.reach("rsv_on_length_field")
+            self.hdr_rsv = True
         vals = [b for b in range(vstart, end) if b not in R]
         self.old_positions = vals[:oldlen]
         if oldlen < len(vals) and (sx.pick("old_terminator", [1, 0]) if terminator is None else terminator):
@@ -160,7 +178,9 @@ class T2World(World):
         """reach labels describing where the reserved ranges fall relative to
         a new message of length n"""
         labels = []
-        vstart = self.T + 1 + lenbytes(n)
+        if lenbytes(n) >= len(self.usable):
+            return labels
+        vstart = self.usable[lenbytes(n)] + 1
         vals = [b for b in range(vstart, 16 + self.S) if b not in self.R]
         if n > len(vals):
             return labels
@@ -197,9 +217,12 @@ class T1World(World):
     kind = "tt1"
 
     def __init__(self, sx, hr, size, prefix="", rsv=(), oldlen=0, old_lt_80=False,
-                 exact=False, symbolic_window=None, terminator=None, phys=None):
+                 exact=False, symbolic_window=None, terminator=None, phys=None,
+                 rsv_on_len=False, plen=()):
         self.sx = sx
         self.size = size
+        pi = 0
+        self.hdr_rsv = False
         # physical memory may be larger than the data area the capability
         # container declares (guard bytes: the model must not enforce the
         # end of the data area on behalf of the code)
@@ -218,6 +241,16 @@ class T1World(World):
             if c == 'N':
                 mem[p] = 0x00
                 p += 1
+                continue
+            if c == 'P':
+                k = plen[pi]
+                pi += 1
+                pos = [b for b in range(p, size) if b not in R][:k + 2]
+                mem[pos[0]], mem[pos[1]] = 0xFD, k
+                if pos[-1] - pos[0] != k + 1:
+                    sx.reach("rsv_inside_proprietary_tlv")
+                    self.hdr_rsv = True
+                p = pos[-1] + 1
                 continue
             frm, sz = rsv[ri]
             ri += 1
@@ -253,14 +286,17 @@ class T1World(World):
         self.cap = real_capacity(self.count)
         self.oldlen = oldlen
         assert oldlen <= self.cap, (oldlen, self.cap)
-        if oldlen < 255:
-            mem[p + 1] = oldlen
-            vstart = p + 2
-        else:
-            mem[p + 1:p + 4] = [0xFF, oldlen >> 8, oldlen & 0xFF]
-            vstart = p + 4
-        for b in range(p + 1, vstart):
-            assert b not in R, "reserved range on the length field"
+        lfield = [oldlen] if oldlen < 255 else [0xFF, oldlen >> 8, oldlen & 0xFF]
+        lpos = self.usable[1:1 + len(lfield)]
+        for b, v in zip(lpos, lfield):
+            mem[b] = v
+        vstart = lpos[-1] + 1
+        if not rsv_on_len:
+            for b in range(p + 1, vstart):
+                assert b not in R, "reserved range on the length field"
+        elif any(b in R for b in range(p + 1, vstart)):
+            sx.reach("rsv_on_length_field")
+            self.hdr_rsv = True
         vals = [b for b in range(vstart, end) if b not in R]
         self.old_positions = vals[:oldlen]
         if oldlen < len(vals) and (sx.pick("old_terminator", [1, 0]) if terminator is None else terminator):
@@ -287,7 +323,9 @@ class T1World(World):
 
     def geometry(self, n):
         labels = []
-        vstart = self.T + 1 + lenbytes(n)
+        if lenbytes(n) >= len(self.usable):
+            return labels
+        vstart = self.usable[lenbytes(n)] + 1
         vals = [b for b in range(vstart, self.end) if b not in self.R]
         if n > len(vals):
             return labels
